@@ -9,5 +9,6 @@ NOT_COVERED = []
 LEVEL_TEXT = 'Function-level contract of get_max_advance (exact characterisation incl. in-flight ancestors, <= until, = until without trigger inputs, frame); the promise invariant PM over whole runs is not yet built.'
 TECHNIQUE = "contract-based deductive verification"
 DESIGN_REF = 'DESIGN.md section 8 (C07)'
+LEVEL_NOTE = 'Trusted: pyvc encoder, time/delay algebra axioms with C08 provenance, static table typing (static_ok), z3/cvc5.'
 CLAIMED = True
 NA_REASON = "check under construction in this round"
